@@ -233,7 +233,7 @@ def run(chk):
         "injectivity of the canonical form (the 'only of it' clause) is checked on the generated sample by "
         "collision search, not yet proved (C11_injective pending): claim is partial for that clause",
     ]
-    chk.proof, fails = C.proof_gate("C11", THEOREMS)
+    chk.proof, fails = C.proof_gate("C11")
     for f in fails:
         chk.broken(f, {"theorem_gate": f})
     C.ensure_harness()
